@@ -1452,6 +1452,9 @@ func init() {
 		// and a signature made with the NEXT key's secret over this key's challenge: never valid
 		for i := range ts {
 			j := (i + 1) % len(ts)
+			if bytes.Equal(ts[i].pub, ts[j].pub) {
+				continue // the same x-only key (k and n−k, or the same scalar class drawn twice): the signature IS valid
+			}
 			r.eccSchnorrVerify(ts[i].pub, ts[j].m, ts[j].sig, "schnorr-other-key/many keys", false)
 		}
 	})
